@@ -59,7 +59,7 @@ def entry_nodes(kind, path, tag=1000, out='/v/out'):
 
 
 def sentinels(out='/v/out'):
-    return [W.f(out + '/target.txt', 'TARGET', 0o644, 904), W.d(out + '/tdir', 0o755),
+    return [W.f(out + '/target.txt', 'TARGET', 0o644, 904), W.d(out + '/tdir', 0o555),  # (a mode a 'helpful' chmod u+w would change)
             W.f(out + '/tdir/t', 'T', 0o644, 905)]
 
 
